@@ -409,6 +409,18 @@ theorem add_never_nil_deref (c0 : List Blk) (s : PState) (hr : Reachable c0 s) (
         · repeat' split
           all_goals simp
 
+/-- negative witness (finding F15): a competitor for an account's FIRST block is refused whatever its priority —
+    `canRollback` asks the frontier store for the block at height 0, which never exists. On an empty account the pooled
+    block `a` (ratio 1) is kept against `b` (ratio 2, same previous = zero identifier) although `higherPriority b a`
+    succeeds; in the other arrival order `b` is kept: at height 1 the winner is the first arrival, not the rule's. -/
+theorem first_block_competitor_refused :
+    ∃ (a b : Blk), a.prev = zeroId ∧ b.prev = zeroId ∧ a.height = 1 ∧ b.height = 1 ∧ higherPriority b a = .ok ∧
+      (addBlock (step ⟨[], none⟩ (.add a false)) b false).2 = .missingPrevious ∧
+      (step (step ⟨[], none⟩ (.add a false)) (.add b false)).manager.pooled = [a] ∧
+      (step (step ⟨[], none⟩ (.add b false)) (.add a false)).manager.pooled = [b] :=
+  ⟨{ height := 1, hash := [1], prevHash := zeroHash, total := 21000, base := 21000 },
+   { height := 1, hash := [2], prevHash := zeroHash, total := 42000, base := 21000 }, by decide⟩
+
 /-- negative witness for candidate F12 (`rebuild` returns at the first address whose blocks do not re-apply, later
     addresses keep the manager built on the OLD stable database): if the rebuild of this address is skipped while a
     momentum confirms a competing block, the pooled block no longer extends the confirmed chain and the frontier store
